@@ -455,8 +455,21 @@ var c11Special = []func() []gen.Node{
 	},
 }
 
+func init() {
+	// a macro is a macro of its template wherever its definition stands: inside a condition, a block, a loop - it
+	// is reached through _self, an alias and a from-import alike
+	c11Special = append(c11Special, func() []gen.Node {
+		call := func(x, m string) gen.Node { return pr(&gen.EMethod{X: nm(x), Name: m, Args: []gen.Expr{str("a")}}) }
+		return []gen.Node{&gen.NImport{Tpl: str("lib2"), Alias: "L2"}, &gen.NFrom{Tpl: str("lib2"), Names: [][2]string{{"inif", "inif"}, {"inblock", "ib2"}, {"infor", "infor"}}},
+			call("L2", "inif"), call("L2", "inblock"), call("L2", "infor"), call("L2", "top"), tx("|"), pr(&gen.ECall{Fn: "inif", Args: []gen.Expr{str("f")}}), pr(&gen.ECall{Fn: "ib2", Args: []gen.Expr{str("f")}}), pr(&gen.ECall{Fn: "infor", Args: []gen.Expr{str("f")}}),
+			tx("|"), &gen.NIf{Conds: []gen.Expr{&gen.EBool{V: true}}, Bodies: [][]gen.Node{{c11macro("own", 1)}}}, call("_self", "own")}
+	})
+}
+
 func (p *c11) buildSpecial(j int) (*Program, string) {
-	ts := map[string]*gen.Template{"main": tpl("main", c11Special[j]()...), "lib": tpl("lib", c11macro("m", 1))}
+	ts := map[string]*gen.Template{"main": tpl("main", c11Special[j]()...), "lib": tpl("lib", c11macro("m", 1)),
+		"lib2": tpl("lib2", c11macro("top", 1), &gen.NIf{Conds: []gen.Expr{&gen.EBool{V: true}}, Bodies: [][]gen.Node{{c11macro("inif", 1)}}}, &gen.NBlock{Name: "blk", Body: []gen.Node{c11macro("inblock", 1)}},
+			&gen.NFor{Val: "i", Seq: &gen.EArr{Els: []gen.Expr{num(1)}}, Body: []gen.Node{c11macro("infor", 1)}})}
 	return &Program{Templates: ts, Main: "main", Ctx: map[string]interface{}{}}, fmt.Sprintf("special/%d", j)
 }
 
